@@ -109,7 +109,12 @@ Inductive case :=
 (* one call of the real loadPath on a certificate directory described entry by entry (what
    Lstat and a read of every entry yield): the error, or the map it returned (keys relative to
    the certificate path, in ascending order) *)
-| CDirLoad (d : dirstate) (impl : load).
+| CDirLoad (d : dirstate) (impl : load)
+(* a real PathSource whose configured certificate path leads through symbolic links, behind
+   the real TLSConfig: a history of file trees (where the links lead at that moment, and what
+   every place they have led or will lead to holds then, each described as for CDir); the
+   names of the leaf a handshake was given after each tree *)
+| CPath (worlds : list world) (sn : str) (strict : bool) (impl : list seen).
 
 (* the property's demand on what a handshake is given after [set] was published: the names
    say which position(s) may answer, and the value given is the set's own at that position *)
@@ -230,4 +235,21 @@ Definition check_case (c : case) : N :=
          refusal - that the directory reads as (the declarative view) *)
       let spec := opt_eqb certset_eqb (usable impl) (usable (dir_view d)) in
       verdict same spec None (Nat.ltb 1 (length (filter wanted d)))
+  | CPath worlds sn strict impl =>
+      let m := run_store_seen [] (e2e_actions watch_step false None (map path_load worlds) sn strict) in
+      let same := list_eqb seen_eqb impl m in
+      (* the set a handshake must be answered from: the last tree of the prefix in which the
+         place the path denoted THEN read as a usable set (declarative view).
+         The property does not say whether a symbolic link that is the LAST element of the
+         configured path is followed (filepath.Walk does not): that is part of the model
+         ([same]), no demand is made on histories in which the path denotes such a link *)
+      let last_is_link := existsb (fun w => match denoted w with
+                                            | RFile _ e => match d_kind e with KSymlink => true | _ => false end
+                                            | _ => false
+                                            end) worlds in
+      let spec := last_is_link ||
+                  all2 (fun k x => seen_ok (last_good [] (firstn (S k) (map world_view worlds))) sn strict x)
+                       (seq 0 (length worlds)) impl in
+      let nontriv := match m with p :: r => existsb (fun q => negb (seen_eqb p q)) r | [] => false end in
+      verdict same spec None nontriv
   end.
